@@ -84,6 +84,12 @@ func verifParam(name string) int {
 	}
 	return int(v)
 }
+func verifParamOr(name string, def int) int {
+	if v, ok := verifLoadReplay().Params[name]; ok {
+		return int(v)
+	}
+	return def
+}
 func verifAssume(c bool) {
 	if !c {
 		veriffmt.Println("VERIF-ASSUME-FAILED")
